@@ -152,7 +152,7 @@ func c19DHTRun(path []lev) (r dhtResult) {
 	return
 }
 
-var c19DHTTTLs = []int64{500, 1000, 2000}
+var c19DHTTTLs = []int64{500, 1000, 2000, -1000}
 
 func c19DHTEvents(tok [2][2]uint64, bKind string, moves int) []lev {
 	var out []lev
